@@ -22,6 +22,7 @@ import fnmatch
 
 from ..model import AnalysisError, dotted, unparse, walk_local
 from ..engines import resolve, automake, pattern
+from ._common import conditions_at, resolve_local
 
 
 def run(model, rep, tier):
@@ -121,14 +122,32 @@ def run(model, rep, tier):
         rep.ob('makefile-deps-written', mod, r, 'dependency order %s = arguments of trans.pl (transformation, structure)' % order, ok,
                '' if ok else '$^ passes the files to trans.pl in the wrong order', engine='automake', qual='supercelltar')
         # guard of the rule and the POS/POSCAR naming predicate
-        g = blk if isinstance(blk, ast.If) else None
-        okg = g is not None and re.fullmatch(r'\w+ is not None', unparse(g.test)) is not None
-        rep.ob('naming', mod, r, 'rule emitted only for mapped endpoints (`%s`)' % (unparse(g.test) if g else '?'), okg,
+        conds = conditions_at(st, r)
+        okg = any(re.fullmatch(r'\w+ is not None', c) for c in conds)
+        rep.ob('naming', mod, r, 'rule emitted only for mapped endpoints (conditions holding at the rule: %s)' % sorted(conds), okg,
                '' if okg else 'rule emitted unconditionally', engine='automake', qual='supercelltar')
-    names = pattern.find(st, "_N_f = _N_d + '/POSCAR.init' if superdict['transmapping'][_N_t][0] is None else _N_d + '/POS.init'") + \
-        pattern.find(st, "_N_f = _N_d + '/POSCAR.final' if superdict['transmapping'][_N_t][1] is None else _N_d + '/POS.final'")
-    rep.ob('naming', mod, st, 'POSCAR.<end> when the endpoint has no mapping, POS.<end> when make must build POSCAR.<end>', len(names) == 2,
-           '' if len(names) == 2 else 'an endpoint that make has to build is also written directly (or a needed one is not written)',
+    # POS / POSCAR: a conditional expression on ``<mapping of this endpoint> is None`` chooses between the two names
+    names = 0
+    for end, idx in (('init', 0), ('final', 1)):
+        for n in walk_local(st):
+            if not isinstance(n, ast.IfExp):
+                continue
+            cb = {c.value for c in ast.walk(n.body) if isinstance(c, ast.Constant) and isinstance(c.value, str)}
+            co = {c.value for c in ast.walk(n.orelse) if isinstance(c, ast.Constant) and isinstance(c.value, str)}
+            if not ({'/POSCAR.' + end, '/POS.' + end} <= cb | co):
+                continue
+            t = n.test
+            if not (isinstance(t, ast.Compare) and len(t.ops) == 1 and isinstance(t.ops[0], (ast.Is, ast.IsNot))
+                    and isinstance(t.comparators[0], ast.Constant) and t.comparators[0].value is None):
+                continue
+            none_branch, some_branch = (cb, co) if isinstance(t.ops[0], ast.Is) else (co, cb)
+            what = unparse(resolve_local(st, t.left))
+            okx = re.fullmatch(r"(superdict\['transmapping'\]|transmapping)\[\w+\]\[%d\]" % idx, what) is not None
+            if okx and '/POSCAR.' + end in none_branch and '/POS.' + end in some_branch \
+                    and '/POSCAR.' + end not in some_branch and '/POS.' + end not in none_branch:
+                names += 1
+    rep.ob('naming', mod, st, 'POSCAR.<end> when the endpoint has no mapping, POS.<end> when make must build POSCAR.<end>', names == 2,
+           '' if names == 2 else 'an endpoint that make has to build is also written directly (or a needed one is not written)',
            engine='automake', qual='supercelltar')
     loopsrc = pattern.has(st, "for _N_m, _N_t in ((transmapping[_N_tag][0], 'init'), (transmapping[_N_tag][1], 'final')):\n    _E_b".replace('_E_b', 'pass'))
     pairs = [x for x in walk_local(st) if isinstance(x, ast.For) and isinstance(x.iter, ast.Tuple) and len(x.iter.elts) == 2
